@@ -2,7 +2,9 @@
    Only statements, each closed by [exact], each followed by Print Assumptions. *)
 From Coq Require Import List ZArith Bool.
 Import ListNotations.
-From GMS Require Import Range.Cut Range.MRange Range.C03IndexBuilder Range.C03IndexBuilderProofs Range.C03Multi Range.C03MultiProofs.
+From GMS Require Import Range.Cut Range.MRange Range.C03IndexBuilder Range.C03IndexBuilderProofs Range.C03Multi Range.C03MultiProofs
+  Range.C03Scan Range.C03ScanProofs Range.C03IndexScan.
+From Coq Require Import Permutation.
 Open Scope Z_scope.
 
 (* each call hands updateCol ranges that contain a column value exactly when the comparison is TRUE of it:
@@ -71,6 +73,54 @@ Print Assumptions C03_in_fast_path_nil_iff_unsatisfiable.
 Theorem C03_in_fast_path_precision_refuted : exists ls, in_fast ls = None /\ ls <> [].
 Proof. exists [(15, 1%nat)]. split; [reflexivity|discriminate]. Qed.
 Print Assumptions C03_in_fast_path_precision_refuted.
+
+(* ---- the analyzer side: which filters enter the scan, which stay as a residual Filter ---- *)
+(* indexScanRangeBuilder on a root AND, for EVERY include set: provided every top-level leaf / OR that goes into the
+   scan addresses index columns and is either exact (flagged precise) or marked imprecise, the row satisfies the filter
+   tree iff its key tuple lies in the lookup ranges and every left-over expression is TRUE of it.  So a residual filter
+   is dropped only for exact, included filters; with an imprecise lookup (PreciseMatch false / prefix index) all
+   filters are kept, which needs only the "=>" half (completeness).  Leaves have an abstract truth Tl whose builder
+   call over-approximates it (exactly when flagged precise); ror is RemoveOverlappingRanges (C46: exact). *)
+Theorem C03_range_builder_residual_sound :
+  forall (k : nat) (include imprecise : list nat) (ror : list range -> option (list range)),
+  (1 <= k)%nat ->
+  (forall rs out, ror rs = Some out ->
+     (forall t, ucontains out t = ucontains rs t) /\ (rs <> [] -> out <> []) /\
+     (Forall (haslen k) rs -> Forall (haslen k) out)) ->
+  forall (Tl : bop -> tuple -> bool) (precise_b : bop -> bool) (row : tuple),
+  Forall in_i32 row -> (k <= length row)%nat ->
+  (forall b, wf_bop (firstn k row) b -> Tl b row = true -> bop_true b (firstn k row) = true) ->
+  (forall b, wf_bop (firstn k row) b -> precise_b b = true -> Tl b row = bop_true b (firstn k row)) ->
+  forall id ls ors r lo,
+  Forall (tl_ok k include imprecise precise_b row (mem id include)) ls ->
+  Forall (to_ok k include imprecise precise_b row (mem id include)) ors ->
+  rb k include imprecise ror (depth (FAnd id ls ors)) (FAnd id ls ors) (mem id include) [] = Some (r, lo) ->
+  exists rs L, r = Some rs /\ rs <> [] /\ Forall (haslen k) rs /\ lo = map fst L /\ Forall (entry Tl row ls ors) L /\
+    feval Tl row (FAnd id ls ors) = ucontains rs (firstn k row) && forallb snd L.
+Proof. exact root_and_sound. Qed.
+Print Assumptions C03_range_builder_residual_sound.
+
+(* buildAnd's line "imprecise = invalid.Union(imp)" loses the mark of an imprecise leaf that precedes a nested AND:
+   for  X AND (Y AND Z)  with X imprecise the imprecise set comes back empty (the hypothesis of the theorem above is
+   then not met; harmless only as long as the builder's ranges for X are in fact exact, as they are for INT columns) *)
+Theorem C03_build_and_drops_imprecise_mark_refuted : exists x y z,
+  r_imprecise (build_root (SAnd (SLeaf x true) (SAnd (SLeaf y false) (SLeaf z false)))) = [].
+Proof. exists (BOp 0 (OGt (15%Z, 1%nat))), (BOp 0 OIsNotNull), (BOp 1 OIsNull). reflexivity. Qed.
+Print Assumptions C03_build_and_drops_imprecise_mark_refuted.
+
+(* ---- the in-memory index scan, and the final link ---- *)
+Theorem C03_index_scan_returns_rows_in_ranges : forall kcols rows storage ranges,
+  storage_consistent kcols rows storage ->
+  Permutation (index_read rows storage ranges) (filter (fun r => ucontains ranges (key_of kcols r)) rows).
+Proof. exact index_read_exact. Qed.
+Print Assumptions C03_index_scan_returns_rows_in_ranges.
+(* Filter(residual, IndexedTableAccess(ranges)) = Filter(whole filter, full scan), as bags *)
+Theorem C03_index_read_with_residual_equals_filtered_scan : forall kcols rows storage ranges (whole residual : trow -> bool),
+  storage_consistent kcols rows storage ->
+  (forall r, In r rows -> whole r = ucontains ranges (key_of kcols r) && residual r) ->
+  Permutation (filter residual (index_read rows storage ranges)) (filter whole rows).
+Proof. exact index_scan_then_residual_eq_filtered_scan. Qed.
+Print Assumptions C03_index_read_with_residual_equals_filtered_scan.
 
 Example C03_multi_nonvacuous :
   mresult (mrun 2 [BOp 0 (ONe (2, 0%nat)); BIn 1 [(1, 0%nat); (15, 1%nat); (3, 0%nat)]]) =
